@@ -1,6 +1,8 @@
 import OPM.Gen.TickTable
+import OPM.Model.TickShell
 import OPM.Model.Interp
 import OPM.Model.Merge
+import OPM.Lemmas.TickShell
 import OPM.Lemmas.Interp
 import OPM.Lemmas.InterpErr
 import OPM.Lemmas.InterpLock
@@ -12,107 +14,364 @@ that return values in their declared domains, an engine tick never raises. A fai
 pauses the run with Method Status 'Error' and marks the instruction as failed in the method state.
 The engine stays responsive to Stop and to a corrected method."
 
-Three layers:
- 1. `OPM.Gen.TickTable` is regenerated from the source of `Engine.tick`, `read_process_image`,
-    `write_process_image` on every run.  Against the *raise table* below (which callee may raise
-    what — the stated assumption of this property) every may-raise call site is enclosed by a
-    handler that catches it and ends in `set_error_state` (`decide` over the regenerated table).
- 2. A shell model of `Engine.tick`'s handler structure: a raise of the interpreter phase or of the
-    command phase ends in the error state (paused, Method Status = Error) and never escapes.
+Layers:
+ 1. `OPM.Gen.TickTable` is regenerated from the source on every run: EVERY call expression of
+    `Engine.tick`, `read_process_image`, `write_process_image`, `set_error_state`, `_apply_safe_state`
+    (`allCalls`) and the phases of a tick in source order with their guards and handlers (`tickPhases`).
+    The *raise table* `mayRaise` is total with default "may raise anything"; the calls assumed not to raise
+    are listed one by one (that list is the assumption of this property).  `calls_accounted`: every call
+    that may raise is a phase of the model, inside a `try` that catches it, with a handler ending in
+    `set_error_state`.
+ 2. `OPM.Model.TickShell` executes that phase table under a fault plan (tied to the real `Engine.tick` by a
+    fault-injection stream: each callee of the tick is patched to raise on chosen ticks).  Theorems: under
+    every plan that respects the raise table a tick does not raise; a failing interpreter phase ends in the
+    error state; what happens when an unguarded phase or `set_error_state` itself raises; an accepted Stop
+    stops the run within `stopTicks` command phases whatever guarded faults recur; a merged corrected method
+    clears the error state and Unpause resumes.
  3. Over the interpreter model: a body that raises marks its node failed and stores the error;
     the stored error persists until a corrected method is merged, which clears it.
-**Partial**: Python exceptions from call sites the raise table lists as non-raising cannot be
-exhibited by the model; they are reachable only by the search (malformed-input stream on the real
-engine).
+**Partial**: Python exceptions from the calls the raise table lists as non-raising cannot be exhibited by
+the theorems; the fault-injection stream shows what they would do (the tick raises), the search on the real
+engine (malformed-input stream) looks for inputs that make them happen.
+**Finding** (`C13_full`, `C13_counterexample`, `C13_partial`): a Stop that was accepted is lost when a
+method is saved before the next tick (the CommandManager is replaced by an empty one).
 -/
 namespace OPM.C13
-open OPM.Gen.TickTable
+open OPM.Gen.TickTable OPM.TickShell
 
-/-! ## 1. the regenerated handler table -/
+/-! ## 1. the regenerated call table against the raise table -/
 
 inductive Raises where
-  | nothing   -- assumed not to raise (values in declared domains; listeners swallow their own errors)
-  | hardware  -- may raise HardwareLayerException
-  | anything  -- may raise any Exception (method text, UOD command code)
+  | nothing   -- assumed not to raise
+  | hardware  -- may raise HardwareLayerException (the declared failure mode of hardware I/O)
+  | anything  -- may raise any Exception
 deriving DecidableEq, Repr
 
-/-- The raise table: the assumption under which "a tick never raises" is claimed. -/
+/-- The raise table, total over callee expressions: **anything not listed may raise anything**.
+    The `.nothing` rows are the assumption under which "a tick never raises" is claimed. -/
 def mayRaise : String → Raises
-  | "self.interpreter.tick" => .anything
-  | "self._command_manager.tick" => .anything
-  | "self.update_calculated_tags" => .anything   -- a clock tag may be simulated with a non-numeric value
-  | "self.notify_tag_updates" => .anything       -- asserts on the Connection Status value
-  | "self.uod.hwl.read_batch" => .hardware
-  | "hwl.write_batch" => .hardware
-  | _ => .nothing
+  -- hardware I/O
+  | "self.uod.hwl.read_batch" | "hwl.write_batch" => .hardware
+  -- logging (the logging module swallows the errors of its handlers)
+  | "logger.debug" | "logger.info" | "logger.warning" | "logger.error" | "logger.fatal"
+  | "frontend_logger.error" => .nothing
+  -- builtins and methods of builtin containers
+  | "enumerate" | "isinstance" | "self._system_tags.tags.values" | "self.uod.hwl.registers.values"
+  | "hwl.registers.values" | "register_values.append" | "current_values.append" => .nothing
+  -- engine code that only tests / assigns fields
+  | "self.has_error_state" | "self.tracking.tick" | "self._tick_timer.stop" | "TagValueCollection" => .nothing
+  -- hardware and UOD callbacks: "return values in their declared domains" (the property's assumption)
+  | "self.uod.hwl.tick" | "r.options[]" => .nothing
+  -- accessors of registered tags, fed with in-domain values
+  | "self.uod.tags.get" | "tag.set_value" | "tag.as_readonly" | "self._tags[].get_value"
+  | "self._system_tags[].set_value" => .nothing
+  -- functions whose own calls are rows of the table (fn = read / write / set_error_state / apply_safe_state)
+  | "self.read_process_image" | "self.write_process_image" | "self.set_error_state"
+  | "self._apply_safe_state" => .nothing
+  -- every listener call inside is wrapped in `try/except Exception: log` (`emitSwallows`)
+  | "self._emitter.emit_on_method_error" => .nothing
+  | _ => .anything
 
-def covered : Raises → List String → Bool
-  | .nothing, _ => true
-  | .hardware, cs => cs.contains "HardwareLayerException" || cs.contains "Exception" || cs.contains "BaseException"
-  | .anything, cs => cs.contains "Exception" || cs.contains "BaseException"
+def allowed : Raises → Fault → Bool
+  | .nothing, _ => false
+  | .hardware, .hw => true
+  | .hardware, .other => false
+  | .anything, _ => true
 
-def siteOk (s : Site) : Bool :=
-  covered (mayRaise s.callee) s.catches && (mayRaise s.callee == .nothing || s.handlersSetError)
+/-- a call that may raise is a phase of the model whose `try` catches everything it may raise and whose
+    handler ends in `set_error_state` -/
+def callOk (c : Call) : Bool :=
+  match mayRaise c.callee with
+  | .nothing => true
+  | r => !c.inHandler &&
+         tickPhases.any (fun p => p.fn == c.fn && p.callee == c.callee && p.catches == c.catches &&
+           (allowed r .hw → guardedFault p .hw) && (allowed r .other → guardedFault p .other))
 
-/-- Every may-raise call of the tick is caught by a handler that ends in `set_error_state`. -/
-theorem tick_sites_guarded : (tickSites ++ readSites ++ writeSites).all siteOk = true := by
+/-- Every call expression of the tick, of the process-image functions and of `set_error_state` /
+    `_apply_safe_state` is accounted for. -/
+theorem calls_accounted : allCalls.all callOk = true ∧ emitSwallows = true := by
   decide +kernel
 
 /-- …and the guarded calls are really there (the statement above is not vacuous). -/
 theorem guarded_sites_present :
-    (tickSites.any (fun s => s.callee == "self.interpreter.tick" && s.handlersSetError)) = true ∧
-    (tickSites.any (fun s => s.callee == "self._command_manager.tick" && s.handlersSetError)) = true ∧
-    (tickSites.any (fun s => s.callee == "self.update_calculated_tags" && s.handlersSetError)) = true ∧
-    (tickSites.any (fun s => s.callee == "self.notify_tag_updates" && s.handlersSetError)) = true ∧
-    (readSites.any (fun s => s.callee == "self.uod.hwl.read_batch" && s.handlersSetError)) = true ∧
-    (writeSites.any (fun s => s.callee == "hwl.write_batch" && s.handlersSetError)) = true ∧
+    (allCalls.any (fun c => c.callee == "self.interpreter.tick" && mayRaise c.callee == .anything)) = true ∧
+    (allCalls.any (fun c => c.callee == "self._command_manager.tick" && mayRaise c.callee == .anything)) = true ∧
+    (allCalls.any (fun c => c.callee == "self.update_calculated_tags" && mayRaise c.callee == .anything)) = true ∧
+    (allCalls.any (fun c => c.callee == "self.notify_tag_updates" && mayRaise c.callee == .anything)) = true ∧
+    (allCalls.any (fun c => c.callee == "self.uod.hwl.read_batch")) = true ∧
+    (allCalls.any (fun c => c.callee == "hwl.write_batch")) = true ∧
+    (allCalls.any (fun c => c.fn == "set_error_state" && c.callee == "self._emitter.emit_on_method_error")) = true ∧
     visitWrapperMarksFailed = true := by
   decide +kernel
 
-/-! ## 2. shell model of the handler structure of `Engine.tick` -/
+/-- the model's `set_error_state` mirrors the source: Method Status, System State, (safe state), listeners -/
+theorem set_error_state_shape :
+    setErrorCalls = ["self._system_tags[].set_value", "self._system_tags[].set_value",
+                     "self._apply_safe_state", "self._emitter.emit_on_method_error"] := by
+  decide +kernel
 
-structure Shell where
-  started : Bool
-  paused : Bool
-  holding : Bool
-  stopping : Bool
-  methodError : Bool      -- Method Status = Error
-  sysPaused : Bool        -- System State = Paused
-deriving DecidableEq, Repr
+/-! ## 2. the tick shell over the regenerated phase table -/
 
-def setErrorState (s : Shell) : Shell := { s with methodError := true, sysPaused := true, paused := true }
+/-- index of the command phase / the interpreter phase in the regenerated table -/
+def cmdIdx : Nat := tickPhases.findIdx (fun p => p.callee == cmdCallee)
+def interpIdx : Nat := tickPhases.findIdx isInterp
+/-- an unguarded phase (the hardware layer's own tick) and the guarded hardware read -/
+def hwTickIdx : Nat := tickPhases.findIdx (fun p => p.callee == "self.uod.hwl.tick")
+def readIdx : Nat := tickPhases.findIdx (fun p => p.callee == "self.uod.hwl.read_batch")
 
-/-- What the phases do is abstracted to "raises or not" (the raise table) plus an arbitrary
-    state change `f` of a phase that returns normally. Returns the state and whether an exception
-    escaped the tick. -/
-def shellTick (s : Shell) (readRaises interpRaises cmdRaises writeRaises : Bool)
-    (fInterp fCmd : Shell → Shell) : Shell × Bool :=
-  let s := if readRaises then setErrorState s else s
-  let s := if s.started && !s.paused && !s.holding && !s.stopping then
-      (if interpRaises then setErrorState s else fInterp s) else s
-  let s := if cmdRaises then setErrorState s else fCmd s
-  let s := if s.started && writeRaises then setErrorState s else s
-  (s, false)
+theorem table_wf : TableWF tickPhases cmdIdx ∧ interpIdx < tickPhases.length := by
+  decide +kernel
 
-/-- With every raise caught as the table says, no exception escapes a tick. -/
-theorem shell_tick_never_raises (s : Shell) (a b c d : Bool) (f g : Shell → Shell) :
-    (shellTick s a b c d f g).2 = false := rfl
+/-- the plan lets a phase raise only what the raise table allows for its callee -/
+def respectsFrom (pl : Plan) : Nat → List Phase → Bool
+  | _, [] => true
+  | n, p :: ps => (match pl.at n with
+                   | none => true
+                   | some k => allowed (mayRaise p.callee) k) && respectsFrom pl (n + 1) ps
 
-/-- A failing instruction (the interpreter phase raises) pauses the run with Method Status Error,
-    provided the command phase that follows does not undo it (`g` keeps the error flags — Stop and
-    Unpause are the only commands that clear `paused`, and they do not clear the method status). -/
-theorem interpreter_error_pauses (s : Shell) (a c d : Bool) (f g : Shell → Shell)
-    (hrun : s.started = true ∧ s.paused = false ∧ s.holding = false ∧ s.stopping = false)
-    (ha : a = false) (hc : c = false)
-    (hg : ∀ x, (g x).methodError = x.methodError ∧ (g x).paused = x.paused ∧ (g x).sysPaused = x.sysPaused
-                ∧ (g x).started = x.started) :
-    let r := (shellTick s a true c d f g).1
-    r.methodError = true ∧ r.paused = true ∧ r.sysPaused = true := by
-  obtain ⟨h1, h2, h3, h4⟩ := hrun
-  subst ha hc
-  simp only [shellTick, h1, h2, h3, h4, setErrorState]
-  have := hg { s with methodError := true, sysPaused := true, paused := true }
-  by_cases hd : d = true <;> simp_all
+def phaseOk (p : Phase) : Bool :=
+  (allowed (mayRaise p.callee) .hw → guardedFault p .hw) && (allowed (mayRaise p.callee) .other → guardedFault p .other)
+
+theorem phases_guarded : tickPhases.all phaseOk = true := by
+  decide +kernel
+
+theorem respects_guarded (pl : Plan) :
+    ∀ (ps : List Phase) (n : Nat), ps.all phaseOk = true → respectsFrom pl n ps = true →
+      guardedFrom pl n ps = true := by
+  intro ps
+  induction ps with
+  | nil => intro _ _ _; rfl
+  | cons p ps ih =>
+    intro n hall hr
+    simp only [List.all_cons, Bool.and_eq_true] at hall
+    simp only [respectsFrom, Bool.and_eq_true] at hr
+    simp only [guardedFrom, Bool.and_eq_true]
+    refine ⟨?_, ih _ hall.2 hr.2⟩
+    have h1 := hr.1
+    have hp := hall.1
+    simp only [phaseOk, Bool.and_eq_true, decide_eq_true_eq] at hp
+    split
+    · rfl
+    · next k hk =>
+      rw [hk] at h1
+      simp only at h1
+      cases k
+      · exact hp.1 h1
+      · exact hp.2 h1
+
+/-- **An engine tick never raises**: for every state and every fault plan that makes the callees of the
+    tick raise only what the raise table allows (anything at all for the interpreter, the command manager,
+    the calculated tags, the tag notification; hardware exceptions for read_batch / write_batch), in any
+    combination, with `set_error_state` working. -/
+theorem tick_never_raises (pl : Plan) (s : Shell) (hf : pl.hf = .none)
+    (hr : respectsFrom pl 0 tickPhases = true) : (tick tickPhases pl s).2 = false :=
+  tickFrom_noraise pl hf tickPhases 0 { s := s } (respects_guarded pl tickPhases 0 phases_guarded hr) rfl
+
+/-- the same, stated with the handler structure only (whatever the raise table says) -/
+theorem tick_never_raises_guarded (pl : Plan) (s : Shell) (hg : pl.Guarded tickPhases) :
+    (tick tickPhases pl s).2 = false :=
+  tickFrom_noraise pl hg.1 tickPhases 0 { s := s } hg.2 rfl
+
+/-- a run that is executing its method, nothing pending -/
+def runningState : Shell := { started := true, sys := .running, progStarted := true }
+
+example : ({ faults := [(interpIdx, .other), (cmdIdx, .other), (readIdx, .hw)] } : Plan).hf = .none ∧
+    respectsFrom { faults := [(interpIdx, .other), (cmdIdx, .other), (readIdx, .hw)] } 0 tickPhases = true := by
+  decide +kernel
+
+/-- What the assumption is needed for (witnesses, reproduced on the real engine by the fault-injection
+    stream): a phase outside every handler that raises, a hardware call that raises something else than
+    `HardwareLayerException`, or `set_error_state` raising inside a handler (at its first or at its last
+    call) — the exception escapes the tick. -/
+theorem unguarded_fault_escapes :
+    (tick tickPhases { faults := [(hwTickIdx, .other)] } runningState).2 = true ∧
+    (tick tickPhases { faults := [(readIdx, .other)] } runningState).2 = true ∧
+    (tick tickPhases { faults := [(interpIdx, .other)], hf := .first } runningState).2 = true ∧
+    (tick tickPhases { faults := [(interpIdx, .other)], hf := .last } runningState).2 = true ∧
+    -- …with the error state established all the same when only the listeners' notification failed
+    (tick tickPhases { faults := [(interpIdx, .other)], hf := .last } runningState).1.methodErr = true ∧
+    (tick tickPhases { faults := [(interpIdx, .other)], hf := .first } runningState).1.methodErr = false := by
+  decide +kernel
+
+/-- **A failing instruction pauses the run with Method Status Error**: the interpreter phase raises while
+    the run is executing (started, not paused / on hold / stopping) and no command is pending; whatever
+    else fails in the same tick (under guarded faults), the tick does not raise and ends with
+    `_last_error` set, Method Status Error, paused, System State Paused. -/
+theorem failing_instruction_pauses (pl : Plan) (s : Shell) (hg : pl.Guarded tickPhases)
+    (hh : hitsInterp pl 0 tickPhases = true) (hrun : condHolds .runnable s = true) (hidle : Idle s) :
+    (tick tickPhases pl s).2 = false ∧ ErrorState (tick tickPhases pl s).1 :=
+  ⟨tick_never_raises_guarded pl s hg,
+   (tickFrom_interp_fault pl hg.1 tickPhases 0 { s := s } hg.2 table_wf.1.1 hh rfl (by simp)
+      ⟨hidle, Or.inr hrun⟩).1⟩
+
+example : ({ faults := [(interpIdx, .other)] } : Plan).Guarded tickPhases ∧
+    hitsInterp { faults := [(interpIdx, .other)] } 0 tickPhases = true ∧
+    condHolds .runnable runningState = true ∧ Idle runningState := by
+  decide +kernel
+
+/-- `_last_error` survives every tick (only a merged method clears it) -/
+theorem last_error_persists (pl : Plan) (s : Shell) (hg : pl.Guarded tickPhases) (h : s.lastErr = true) :
+    (tick tickPhases pl s).1.lastErr = true :=
+  tick_keeps_lastErr tickPhases pl hg s h
+
+/-! ### responsive to Stop -/
+
+/-- Stop is accepted in the error state, and is then the only pending request -/
+theorem stop_accepted_in_error_state (s : Shell) (he : ErrorState s) (hi : Idle s) (hs : s.stopInst = false) :
+    (user s .stop).2 = true ∧ StopQueued (user s .stop).1 := by
+  obtain ⟨_, _, _, hsys⟩ := he
+  obtain ⟨hq, hx⟩ := hi
+  simp only [user, accepts, hsys]
+  refine ⟨rfl, ?_, hx, hs, ?_⟩
+  · simp [hq]
+  · simp
+
+/-- **Stop stays responsive**: after an accepted Stop the run is stopped after `stopTicks` (= 2) ticks whose
+    command phase runs — whatever guarded faults occur in those ticks (hardware, calculated tags,
+    notification). -/
+theorem stop_completes (pl1 pl2 : Plan) (s : Shell) (h : StopQueued s)
+    (hg1 : pl1.Guarded tickPhases) (hg2 : pl2.Guarded tickPhases)
+    (hc1 : pl1.at cmdIdx = none) (hc2 : pl2.at cmdIdx = none) :
+    [pl1, pl2].length = stopTicks ∧ Stopped (run tickPhases [pl1, pl2] s) := by
+  refine ⟨rfl, ?_⟩
+  have h1 := tick_stage_ok tickPhases cmdIdx table_wf.1 pl1 hg1 hc1 0 s h
+  exact tick_stage_ok tickPhases cmdIdx table_wf.1 pl2 hg2 hc2 1 _ h1
+
+/-- …and when nothing fails in the second of them: System State Stopped, Method Status OK -/
+theorem stop_completes_clean (pl1 pl2 : Plan) (s : Shell) (h : StopQueued s)
+    (hg1 : pl1.Guarded tickPhases) (hg2 : pl2.Guarded tickPhases)
+    (hc1 : pl1.at cmdIdx = none) (hn : pl2.faults = []) :
+    StoppedClean (run tickPhases [pl1, pl2] s) := by
+  have h1 := tick_stage_ok tickPhases cmdIdx table_wf.1 pl1 hg1 hc1 0 s h
+  exact tick_stop_clean tickPhases cmdIdx table_wf.1 pl2 hg2 hn _ h1
+
+/-- **Whatever faults recur**: over any number of ticks under guarded fault plans — including ticks in which
+    the command phase itself fails, which do not count — the run is stopped as soon as `stopTicks` command
+    phases have run, and stays stopped. -/
+theorem stop_completes_whatever_recurs (pls : List Plan) (s : Shell) (h : StopQueued s)
+    (hg : ∀ pl ∈ pls, pl.Guarded tickPhases) (hn : stopTicks ≤ okTicks cmdIdx pls) :
+    Stopped (run tickPhases pls s) :=
+  stage_mono _ (by have := hn; simp only [stopTicks] at this; omega) _ (run_stage tickPhases cmdIdx table_wf.1 pls 0 s hg h)
+
+/-- the state the oracle's Stop scenario starts from: paused on a method error, nothing pending -/
+def errorPaused : Shell :=
+  { started := true, paused := true, sys := .paused, methodErr := true, lastErr := true, progStarted := true }
+
+example : ErrorState errorPaused ∧ Idle errorPaused ∧ errorPaused.stopInst = false := by decide
+
+example : StopQueued (user errorPaused .stop).1 ∧
+    ({ faults := [(cmdIdx + 1, .other), (readIdx, .hw)] } : Plan).Guarded tickPhases ∧
+    ({ faults := [(cmdIdx + 1, .other), (readIdx, .hw)] } : Plan).at cmdIdx = none ∧
+    okTicks cmdIdx [{ faults := [(cmdIdx, .other)] }, {}, { faults := [(cmdIdx, .other)] }, {}] = stopTicks := by
+  decide +kernel
+
+/-! ### responsive to a corrected method -/
+
+/-- **A corrected method that is merged while the run is paused on an error** sets Method Status back to OK
+    and clears `_last_error`; the run stays paused until the user resumes it. -/
+theorem corrected_method_clears_error (s : Shell) (he : ErrorState s) (hs : s.started = true)
+    (hp : s.progStarted = true) :
+    (fix s).2 = true ∧ (fix s).1.methodErr = false ∧ (fix s).1.lastErr = false ∧ (fix s).1.paused = true ∧
+    (fix s).1.started = true := by
+  obtain ⟨h1, _, h3, _⟩ := he
+  simp [fix, hs, hp, h1, h3]
+
+/-- the corrected method is merged, the user resumes (Unpause), one tick -/
+def resumed (s : Shell) : Shell := (tick tickPhases {} (user (fix s).1 .unpause).1).1
+
+/-- …and then Unpause is accepted and the next tick resumes the run: not paused, System State Running,
+    Method Status still OK, the interpreter phase runs again in the tick after. -/
+theorem corrected_method_resumes (s : Shell) (he : ErrorState s) (hi : Idle s) (hs : s.started = true)
+    (hp : s.progStarted = true) (hh : s.holding = false) (hst : s.stopping = false) (hsi : s.stopInst = false) :
+    (user (fix s).1 .unpause).2 = true ∧
+    (resumed s).paused = false ∧ (resumed s).sys = .running ∧ (resumed s).methodErr = false ∧
+    (resumed s).lastErr = false ∧ condHolds .runnable (resumed s) = true ∧ Idle (resumed s) := by
+  obtain ⟨h1, h2, h3, h4⟩ := he
+  obtain ⟨hq, hx⟩ := hi
+  obtain ⟨running, started, paused, holding, stopping, sys, methodErr, lastErr, progStarted, queue, executing,
+    stopInst⟩ := s
+  simp only at h1 h2 h3 h4 hq hx hs hp hh hst hsi
+  subst h1 h2 h3 h4 hq hx hs hp hh hst hsi
+  cases running <;> decide +kernel
+
+example : ErrorState errorPaused ∧ Idle errorPaused ∧ errorPaused.started = true ∧
+    errorPaused.progStarted = true := by decide
+
+/-! ### finding: an accepted Stop is lost when a method is saved before the next tick -/
+
+inductive Op where
+  | tick (pl : Plan)
+  | fix
+
+def runOps : List Op → Shell → Shell
+  | [], s => s
+  | .tick pl :: ops, s => runOps ops (tick tickPhases pl s).1
+  | .fix :: ops, s => runOps ops (fix s).1
+
+def opsGuarded : List Op → Prop
+  | [] => True
+  | .tick pl :: ops => pl.Guarded tickPhases ∧ opsGuarded ops
+  | .fix :: ops => opsGuarded ops
+
+/-- number of ticks whose command phase runs -/
+def okTickOps : List Op → Nat
+  | [] => 0
+  | .tick pl :: ops => (if pl.at cmdIdx = none then 1 else 0) + okTickOps ops
+  | .fix :: ops => okTickOps ops
+
+def noFix : List Op → Bool
+  | [] => true
+  | .tick _ :: ops => noFix ops
+  | .fix :: _ => false
+
+/-- full statement: an accepted Stop stops the run, whatever ticks and method edits follow -/
+def C13_full : Prop :=
+  ∀ (s : Shell) (ops : List Op), StopQueued s → opsGuarded ops → stopTicks ≤ okTickOps ops →
+    (runOps ops s).started = false
+
+/-- Stop accepted in the error pause, a (corrected) method saved before the next tick, two ticks: the run
+    is still started — `on_interpreter_reset` replaced the CommandManager and the queued Stop with it. -/
+theorem C13_counterexample : ¬ C13_full := by
+  intro h
+  have := h (user errorPaused .stop).1 [.fix, .tick {}, .tick {}] (by decide +kernel)
+    (by simp only [opsGuarded, and_true]; decide +kernel) (by decide +kernel)
+  revert this
+  decide +kernel
+
+theorem runOps_stage : ∀ (ops : List Op) (k : Nat) (s : Shell), noFix ops = true → opsGuarded ops →
+    Stage k s → Stage (k + okTickOps ops) (runOps ops s) := by
+  intro ops
+  induction ops with
+  | nil => intro k s _ _ h; exact h
+  | cons op ops ih =>
+    intro k s hn hg h
+    cases op with
+    | fix => simp [noFix] at hn
+    | tick pl =>
+      simp only [noFix] at hn
+      simp only [opsGuarded] at hg
+      simp only [runOps, okTickOps]
+      by_cases hc : pl.at cmdIdx = none
+      · rw [if_pos hc]
+        have := ih (k + 1) _ hn hg.2 (tick_stage_ok tickPhases cmdIdx table_wf.1 pl hg.1 hc k s h)
+        have e : k + 1 + okTickOps ops = k + (1 + okTickOps ops) := by omega
+        rw [e] at this
+        exact this
+      · rw [if_neg hc]
+        have := ih k _ hn hg.2 (tick_stage_faulted tickPhases cmdIdx table_wf.1 pl hg.1 hc k s h)
+        simpa using this
+
+/-- without a method edit between the acceptance of Stop and its completion the full statement holds -/
+theorem C13_partial (s : Shell) (ops : List Op) (hnf : noFix ops = true) (h : StopQueued s)
+    (hg : opsGuarded ops) (hn : stopTicks ≤ okTickOps ops) : (runOps ops s).started = false :=
+  (stage_mono _ (by have := hn; simp only [stopTicks] at this; omega) _ (runOps_stage ops 0 s hnf hg h)).2.2.2
+
+example : noFix [.tick {}, .tick { faults := [(readIdx, .hw)] }] = true ∧
+    opsGuarded [.tick {}, .tick { faults := [(readIdx, .hw)] }] ∧
+    stopTicks ≤ okTickOps [.tick {}, .tick { faults := [(readIdx, .hw)] }] := by
+  refine ⟨rfl, ?_, by decide +kernel⟩
+  simp only [opsGuarded, and_true]
+  decide +kernel
 
 /-! ## 3. the interpreter model -/
 
